@@ -45,6 +45,26 @@ func nonNilEdges(f *ssa.Function, v ssa.Value) []ifEdge {
 			out = append(out, ifEdge{b, 1})
 		}
 	}
+	if len(out) > 1 {
+		// a repeated test of the same value below an edge on which it is already known to be non-nil (left behind when a
+		// helper's `return err` was threaded into the caller's `if err != nil`) is not a test of its own
+		var prim []ifEdge
+		for i, e := range out {
+			redundant := false
+			last := e.B.Instrs[len(e.B.Instrs)-1]
+			for j, e2 := range out {
+				if i != j && e2.B != e.B && DominatedByEdge(f, last, e2.B, e2.K, PathQ{}) {
+					redundant = true
+				}
+			}
+			if !redundant {
+				prim = append(prim, e)
+			}
+		}
+		if len(prim) > 0 {
+			out = prim
+		}
+	}
 	return out
 }
 
